@@ -51,6 +51,7 @@ func init() {
 					}
 					sesh, _, err := user.GetSession(s, plainSeshConfig())
 					if err != nil {
+						user.CloseSession(s, "") // dispatchConnection's error path
 						return
 					}
 					out = append(out, handed{u, s, sesh, user})
@@ -158,6 +159,8 @@ func init() {
 			{"round,term0,admit0.2", "0.1"},
 			{"round,round,close0.1", "0.1"},
 			{"admit0.2,close0.1,close0.2", "0.1"},
+			{"admit0.2,close0.1,admit0.3", "0.1"},
+			{"admit0.2,close0.1,admit0.1", "0.1"},
 		}
 		for _, t := range three {
 			jobs = append(jobs, vx.Job{Scenario: "panel.ops", Params: vx.P("ops", t[0], "pre", t[1]), Bound: b(2, 4), Weight: 8})
